@@ -25,11 +25,34 @@ import (
 
 func vC15Octets(x []byte) string { return vc15gen.VC15CoqBytes(string(x)) }
 
+// vC15DecLen: the number of octets a presentation text stands for (a backslash and three digits, or
+// a backslash and one other octet, are one octet; a lone backslash at the very end is none) — the
+// driver's own count, not the library's escapedNameLen.
+func vC15DecLen(s string) int {
+	n := 0
+	for i := 0; i < len(s); i++ {
+		if s[i] == '\\' {
+			if i+1 == len(s) {
+				break
+			}
+			if i+3 < len(s) && vC15Digit(s[i+1]) && vC15Digit(s[i+2]) && vC15Digit(s[i+3]) {
+				i += 3
+			} else {
+				i++
+			}
+		}
+		n++
+	}
+	return n
+}
+
+func vC15Digit(c byte) bool { return c >= '0' && c <= '9' }
+
 func vC15NameLen(s string) int {
 	if s == "" || s == "." {
 		return 1
 	}
-	return len(s) + 1
+	return vC15DecLen(s) + 1
 }
 
 // vC15Typed: the record types whose layout is written in C15.Layouts.
@@ -44,7 +67,6 @@ func vC15Typed(rr dns.RR) (string, bool) {
 		}
 		return "(Some " + vC15Octets(d) + ")", true
 	}
-	plain := func(s string) bool { return !strings.Contains(s, "\\") }
 	switch v := rr.(type) {
 	case *dns.A:
 		return "steps_of (RA " + vC15Octets(v.A) + ")", true
@@ -81,24 +103,18 @@ func vC15Typed(rr dns.RR) (string, bool) {
 		return vC15SVCB(v.Priority, v.Target, v.Value)
 	case *dns.IPSECKEY:
 		key, err := base64.StdEncoding.DecodeString(v.PublicKey)
-		if err != nil || !plain(v.GatewayHost) {
+		if err != nil {
 			return "", false
 		}
 		return fmt.Sprintf("steps_of (RIPSECKEY %d %d %d %s %s %s %d)", v.Precedence, v.GatewayType, v.Algorithm, vC15Octets(v.GatewayAddr),
 			vC15CoqName(v.GatewayHost), vC15Octets(key), len(v.PublicKey)), true
 	case *dns.AMTRELAY:
-		if !plain(v.GatewayHost) {
-			return "", false
-		}
 		return fmt.Sprintf("steps_of (RAMTRELAY %d %d %s %s)", v.Precedence, v.GatewayType, vC15Octets(v.GatewayAddr), vC15CoqName(v.GatewayHost)), true
 	}
 	return "", false
 }
 
 func vC15SVCB(prio uint16, target string, vals []dns.SVCBKeyValue) (string, bool) {
-	if strings.Contains(target, "\\") {
-		return "", false
-	}
 	var pairs []string
 	for _, kv := range vals {
 		var data []byte
@@ -171,7 +187,8 @@ func vC15TagWalk(rr dns.RR) (string, bool) {
 		parts = append(parts, "[SBytes "+vC15Octets(x)+"]")
 		total += len(x)
 	}
-	plain := func(s string) bool { return !strings.Contains(s, "\\") }
+	// session 5: names and character-strings go to the model as written, escapes and all — the
+	// model decodes them (C15.Concrete.pn_loop, C15.Layouts.unesc)
 	for i := 1; i < t.NumField(); i++ {
 		f := v.Field(i)
 		tag := t.Field(i).Tag.Get("dns")
@@ -183,17 +200,11 @@ func vC15TagWalk(rr dns.RR) (string, bool) {
 				return "", false
 			}
 			for _, s := range ss {
-				if !plain(s) {
-					return "", false
-				}
 				parts = append(parts, fmt.Sprintf("[SName %s %s]", vC15CoqName(s), vC15Bool(tag == "cdomain-name")))
 				total += vC15NameLen(s)
 			}
 		case tag == "cdomain-name" || tag == "domain-name":
 			s := f.String()
-			if !plain(s) {
-				return "", false
-			}
 			parts = append(parts, fmt.Sprintf("[SName %s %s]", vC15CoqName(s), vC15Bool(tag == "cdomain-name")))
 			total += vC15NameLen(s)
 		case tag == "txt":
@@ -205,31 +216,27 @@ func vC15TagWalk(rr dns.RR) (string, bool) {
 				parts = append(parts, "[SPoke0]")
 			}
 			for _, s := range ss {
-				if !plain(s) || len(s) > 255 {
-					return "", false
-				}
-				lit(append([]byte{byte(len(s))}, s...))
+				parts = append(parts, "txt_string_steps "+vC15CoqName(s))
+				total += len(s) + 1
 			}
 		case tag == "octet":
 			s := f.String()
-			if !plain(s) {
-				return "", false
-			}
-			if s == "" {
-				parts = append(parts, "[SRoom1]")
-			} else {
-				lit([]byte(s))
-			}
+			parts = append(parts, "octet_steps "+vC15CoqName(s))
+			total += len(s)
 		case tag == "hex" || strings.HasPrefix(tag, "size-hex:"):
 			d, err := hex.DecodeString(f.String())
 			if err != nil {
-				return "", false
+				// odd length / not hex: the field packer refuses the value whatever the buffer; what
+				// len() counted for it comes out of the SOver computed below
+				parts = append(parts, "[SFail]")
+				continue
 			}
 			lit(d)
 		case tag == "base64" || strings.HasPrefix(tag, "size-base64:"):
 			d, err := base64.StdEncoding.DecodeString(f.String())
 			if err != nil {
-				return "", false
+				parts = append(parts, "[SFail]")
+				continue
 			}
 			lit(d)
 		case tag == "nsec":
@@ -303,10 +310,8 @@ func vC15TagWalk(rr dns.RR) (string, bool) {
 				lit([]byte{byte(x >> 56), byte(x >> 48), byte(x >> 40), byte(x >> 32), byte(x >> 24), byte(x >> 16), byte(x >> 8), byte(x)})
 			case reflect.String: // packString: one length-prefixed character-string
 				s := f.String()
-				if !plain(s) || len(s) > 255 {
-					return "", false
-				}
-				lit(append([]byte{byte(len(s))}, s...))
+				parts = append(parts, "txt_string_steps "+vC15CoqName(s))
+				total += len(s) + 1
 			default:
 				return "", false
 			}
@@ -315,9 +320,6 @@ func vC15TagWalk(rr dns.RR) (string, bool) {
 		}
 	}
 	h := rr.Header()
-	if !plain(h.Name) {
-		return "", false
-	}
 	over := dns.Len(rr) - (vC15NameLen(h.Name) + 10 + total)
 	if over < 0 {
 		return "", false // Len() under-counts this record: not expressible (and worth a look)
